@@ -28,7 +28,7 @@ func (r *Rand) Intn(n int) int {
 	}
 	return int(r.U64() % uint64(n))
 }
-func (r *Rand) Bool() bool       { return r.U64()&1 == 1 }
+func (r *Rand) Bool() bool          { return r.U64()&1 == 1 }
 func (r *Rand) Chance(pct int) bool { return r.Intn(100) < pct }
 
 func B(b bool) string {
@@ -37,11 +37,11 @@ func B(b bool) string {
 	}
 	return "false"
 }
-func N(x uint64) string { return strconv.FormatUint(x, 10) }
-func Z(x int64) string  { return fmt.Sprintf("(%d)%%Z", x) }
-func Nat(x int) string  { return fmt.Sprintf("%d%%nat", x) }
+func N(x uint64) string       { return strconv.FormatUint(x, 10) }
+func Z(x int64) string        { return fmt.Sprintf("(%d)%%Z", x) }
+func Nat(x int) string        { return fmt.Sprintf("%d%%nat", x) }
 func List(xs []string) string { return "[" + strings.Join(xs, "; ") + "]" }
-func Some(x string) string { return "(Some " + x + ")" }
+func Some(x string) string    { return "(Some " + x + ")" }
 func Pair(a, b string) string { return "(" + a + ", " + b + ")" }
 
 func Seed() uint64 {
@@ -66,19 +66,19 @@ func Only() int {
 
 // Writer collects cases and writes them as shards cases_<k>.v.
 type Writer struct {
-	dir      string
-	imports  string // e.g. "Oracle.C01"
-	caseType string
-	chk      string
-	perShard int
-	cases    []string
-	descr    []any
-	classes  map[string]int
-	nontriv  map[string]bool
-	hist     map[string]map[string]int
-	Rule     string
+	dir        string
+	imports    string // e.g. "Oracle.C01"
+	caseType   string
+	chk        string
+	perShard   int
+	cases      []string
+	descr      []any
+	classes    map[string]int
+	nontriv    map[string]bool
+	hist       map[string]map[string]int
+	Rule       string
 	Exhaustive bool
-	Extra    map[string]any
+	Extra      map[string]any
 }
 
 func NewWriter(imports, caseType, chk string) *Writer {
@@ -101,7 +101,19 @@ func (w *Writer) Add(term string, descr any, class string, nontrivial bool) int 
 	if nontrivial {
 		w.nontriv[class] = true
 	}
+	w.progress(descr)
 	return len(w.cases) - 1
+}
+
+// progress records how far the driver got, so that when the process dies inside the
+// implementation (a panic in a library goroutine, a deadlock, the test timeout) the
+// check can name the case that was running: the one after the last completed case.
+func (w *Writer) progress(last any) {
+	b, err := json.Marshal(map[string]any{"completed": len(w.cases), "seed": Seed(), "last_completed_case": last})
+	if err != nil {
+		b, _ = json.Marshal(map[string]any{"completed": len(w.cases), "seed": Seed()})
+	}
+	_ = os.WriteFile(filepath.Join(w.dir, "progress.json"), b, 0o644)
 }
 
 func (w *Writer) Count(hist, key string) {
